@@ -352,7 +352,9 @@ def plan(ch, tier):
                 op["when"] = ["sync", ch.choice("sync_k", 2)]      # request exactly on a multiple of sync_ms
             # plain: a show_player entry without events_when_played/stopped - only then the show_player may
             # recognise a repeated identical request ("nothing to do" / "advance") instead of replacing the show
-            op["plain"] = slot_via[slot] == "player" and ch.flag("plain", 0.35)
+            # (not when the start step is an empty one: without `played` the start would be unobservable)
+            first = model_show(shows[name])[(ss - 1) if ss > 0 else (ss % n)]
+            op["plain"] = slot_via[slot] == "player" and ch.flag("plain", 0.35) and first["label"] is not None
             if op["plain"] and op["sync_ms"] and ch.flag("replay", 0.7):
                 force_next = ("replay", slot)
             if op["manual_advance"]:
@@ -1087,6 +1089,14 @@ def execute(ctx, plan):     # noqa: C901  (one scenario, kept in one place on pu
         Statement: the show honours its sync point - whatever the player does with the repeated request (keep the
         waiting show, or replace it by an identical one waiting for the same point), the first step runs at a
         multiple of sync_ms, not before.  Only generated while the show still waits for its sync point."""
+        passed = [c for c in inst.cands if c < Fraction(t) - Fraction(1, 10 ** 9)]
+        if passed and (landing(t) or len(passed) == len(inst.cands)):
+            # processed late (stall) after the sync point has nominally passed while the start is still queued:
+            # the waiting show starts now AND is replaced by one waiting for the next point - outside the space
+            state["discard"] = "repeated play request processed after the sync point"
+            return
+        # (a candidate that passed with the loop free is refuted: the show did not start there)
+        inst.cands = [c for c in inst.cands if c not in passed]
         ctx.probe("replay_in_sync_wait")
         inst.last_op = "replay"
         for c in sync_cands(inst.sync_ms, t):
